@@ -47,11 +47,13 @@ Lemma walk_list_shape : forall (g : node -> list node * list err) l,
 Proof.
   intros g l. induction l as [|n l IH]; intros HT H; [split; [reflexivity|cbn; lia]|].
   rewrite walk_list_cons. cbn [fst]. rewrite has_text_app, count_elem_app.
-  assert (HT' : has_text_node l = false) by (destruct n; cbn [has_text_node] in HT; [exact HT|discriminate|exact HT]).
+  assert (HT' : has_text_node l = false).
+  { destruct n; cbn [has_text_node] in HT; [exact HT| |exact HT]. apply orb_false_iff in HT. exact (proj2 HT). }
   destruct (IH HT' (fun c Hc => H c (or_intror Hc))) as [I1 I2]. pose proof (H n (or_introl eq_refl)) as Hn.
   destruct n as [ns nm a k|s|s].
   - destruct Hn as [A B]. rewrite A, I1. cbn [count_elem_nodes]. split; [reflexivity|lia].
-  - cbn [has_text_node] in HT. discriminate.
+  - rewrite Hn. cbn [has_text_node] in HT. apply orb_false_iff in HT. destruct HT as [HW _].
+    cbn [fst has_text_node count_elem_nodes]. rewrite HW. split; [exact I1|lia].
   - rewrite Hn. cbn [fst has_text_node count_elem_nodes]. split; [exact I1|lia].
 Qed.
 
@@ -204,4 +206,45 @@ Proof.
     + split; [discriminate|]. right. right. split; [reflexivity|].
       exists (pre ++ r ++ post), e. split; [exact E|]. rewrite !count_elem_app, CP, CPost.
       apply Nat.eqb_neq in C. lia.
+Qed.
+
+(** ---- the Document child rule ----------------------------------------------------------------------------------
+    [doc_kids_ok] = what DOMDocumentImpl accepts as children besides comments: no text other than white space, at most
+    one element.  Merging a legal replacement list at the position of the document element keeps the rule ... *)
+Lemma merge_at_document_element : forall pre nodes post,
+  count_elem_nodes pre = O -> count_elem_nodes post = O -> has_text_node pre = false -> has_text_node post = false ->
+  doc_kids_ok nodes = true -> doc_kids_ok (pre ++ nodes ++ post) = true.
+Proof.
+  intros pre nodes post C1 C2 T1 T2 H. apply doc_kids_ok_spec in H. destruct H as [H1 H2]. apply doc_kids_ok_spec.
+  rewrite !has_text_app, !count_elem_app, T1, T2, H1, C1, C2. split; [reflexivity|lia].
+Qed.
+
+(** ... and so does the whole processing: whenever [xi_docproc] hands back a document (no DOMException), its child
+    list is a well-formed Document child list, whatever the files contain and whatever replaced the document element
+    (included document with comments around its element, fallback children with white space, nested fallbacks ...) *)
+Theorem docproc_children_ok : forall fs fixb fixn fixc uri top pre ns nm a k post r e,
+  split_root [] top = Some (pre, Elem ns nm a k, post) ->
+  has_text_node top = false -> (count_elem_nodes top <= 1)%nat ->
+  xi_docproc fs fixb fixn fixc uri top = (D_ok r, e) -> doc_kids_ok r = true.
+Proof.
+  intros fs fixb fixn fixc uri top pre ns nm a k post r e SR HT CL H.
+  destruct (split_root_spec _ _ _ _ _ SR) as [ET [_ CP]]. cbn [rev app] in ET. specialize (CP eq_refl).
+  assert (CPost : count_elem_nodes post = O).
+  { rewrite ET, count_elem_app in CL. cbn [count_elem_nodes] in CL. lia. }
+  assert (HTs : has_text_node pre = false /\ has_text_node post = false).
+  { rewrite ET in HT. change (pre ++ Elem ns nm a k :: post) with (pre ++ [Elem ns nm a k] ++ post) in HT.
+    rewrite !has_text_app in HT. cbn [has_text_node] in HT. apply orb_false_iff in HT. destruct HT as [H1 H2].
+    cbn [orb] in H2. split; assumption. }
+  destruct HTs as [HT1 HT2].
+  destruct (docproc_as_walk fs fixb fixn fixc uri top pre ns nm a k post SR) as [E|[E1 _]].
+  2:{ rewrite H in E1. discriminate. }
+  rewrite H in E. set (F := enough_fuel fs top) in *.
+  destruct (walk fs uri fixb fixn fixc F true [] uri (Elem ns nm a k)) as [r0 e0] eqn:WT.
+  destruct (in_dec (fun x y : err => ltac:(decide equality)) E_HierarchyExc e0) as [HX|NX].
+  { pose proof (finish_exc (D_ok (pre ++ r0 ++ post), e0) HX) as FE. rewrite <- E in FE. discriminate. }
+  unfold finish in E. cbn [snd] in E. rewrite (cut_no_exc e0 NX) in E. inversion E; subst r e.
+  assert (NXW : ~ In E_HierarchyExc (snd (walk fs uri fixb fixn fixc F true [] uri (Elem ns nm a k)))) by (rewrite WT; exact NX).
+  pose proof (walk_doc_shape fs uri fixb fixn fixc F [] uri (Elem ns nm a k) NXW) as SH. cbv beta iota in SH.
+  rewrite WT in SH. cbn [fst] in SH. destruct SH as [SH1 SH2].
+  apply merge_at_document_element; try assumption. apply doc_kids_ok_spec. split; assumption.
 Qed.
